@@ -194,6 +194,23 @@ def _check_vector(acc, n, M, g2, g4):
         acc.fail("pc/biased", case, target_pc, r)
     else:
         acc.ok()
+    # the same draw with non-integral float labels sharing their integer part, and as rows of a paired-chain table in which
+    # the categories differ only by *which* cell is missing
+    flab = (0.25, 0.5, 0.75, 1.25, 1.5, 1.75)
+    r = acc.call(pyrepseq.pc, np.array([flab[i] for i in sample]))
+    if raised(r) or float(r) != float(target_pc):
+        acc.fail("pc/biased/float-labels", case, target_pc, r)
+    else:
+        acc.ok()
+    if len(n) <= 5 and N <= 8:
+        import pandas as pd
+        rows = (("X", None), (None, "X"), ("X", "X"), (None, None), ("Y", None))
+        df = pd.DataFrame({"CDR3A": [rows[i][0] for i in sample], "CDR3B": [rows[i][1] for i in sample]})
+        r = acc.call(pyrepseq.pc, df)
+        if raised(r) or float(r) != float(target_pc):
+            acc.fail("pc/biased/table-rows-with-missing-cells", case, target_pc, r)
+        else:
+            acc.ok()
     if N < 4:
         return
     # (iii) varpc_n is the unique unbiased estimator of Var(pc) = E[pc^2] - (sum p^2)^2
